@@ -66,10 +66,28 @@ type c03Settings struct {
 	BodyLimit   int    `json:"body_limit,omitempty"`
 	BodyRel     string `json:"body_limit_rel"` // default | above | at | below
 	LimitAction string `json:"body_limit_action,omitempty"`
+	// bound populations (c03_bounds.go)
+	LimitBy       string `json:"body_limit_by,omitempty"`     // "" (directive) | ctl (ctl:requestBodyLimit in phase 1)
+	JSONDepth     int    `json:"json_depth_limit,omitempty"`  // SecRequestBodyJsonDepthLimit
+	NoFilesLimit  int    `json:"no_files_limit,omitempty"`    // SecRequestBodyNoFilesLimit
+	UploadFiles   int    `json:"upload_file_limit,omitempty"` // SecUploadFileLimit
+	InMemoryLimit int    `json:"in_memory_limit,omitempty"`   // SecRequestBodyInMemoryLimit
+}
+
+// c03Bound says which bound a case of a "bound:<knob>" population probes and where.
+type c03Bound struct {
+	Knob   string `json:"knob"`
+	Rel    string `json:"rel"`              // below | at | above1 | far (relative to the bound; "at" = the largest accepted input)
+	Pos    string `json:"pos,omitempty"`    // position of the element that exceeds the bound
+	Follow string `json:"follow,omitempty"` // kind of the well-formed siblings that follow it
+	Level  int    `json:"level,omitempty"`  // JSON: number of wrapper containers between the root and the nest
+	Kinds  string `json:"kinds,omitempty"`  // JSON: container kinds of the nest
+	Limit  int    `json:"limit,omitempty"`
+	Size   int    `json:"size,omitempty"` // the measured quantity (depth, bytes, items, files, header lines)
 }
 
 type c03Case struct {
-	Pop       string      `json:"population"` // main | json-duplicate-key | json-dot-collision | malformed:<kind>
+	Pop       string      `json:"population"` // main | json-duplicate-key | json-dot-collision | malformed:<kind> | bound:<knob>
 	Config    string      `json:"config"`
 	Settings  c03Settings `json:"settings"`
 	URI       c03B        `json:"uri"`
@@ -95,6 +113,9 @@ type c03Case struct {
 	ExpBody   bool        `json:"request_body_pinned,omitempty"` // REQUEST_BODY must equal Body
 	Collide   []sl.KV     `json:"colliding_items,omitempty"`     // labelled populations: the entries that collide
 	DoubleEnc int         `json:"double_encoding_items,omitempty"`
+	Bound     *c03Bound   `json:"bound,omitempty"`      // set in the bound:<knob> populations
+	Feed      string      `json:"feed,omitempty"`       // "" | write (WriteRequestBody) | readfrom-lenger | readfrom-stream (ReadRequestBodyFrom)
+	Chunks    []int       `json:"chunk_ends,omitempty"` // the body is handed over in pieces ending at these offsets (and at its end)
 }
 
 type c03Gen struct {
@@ -361,6 +382,7 @@ type c03Part struct {
 	field   string
 	name    string
 	content string
+	lines   int // >0: the part header has exactly this many lines (padded with X-Pad-<n> fields)
 }
 
 func (g *c03Gen) boundary() string {
@@ -380,7 +402,21 @@ func c03MultipartBody(boundary string, parts []c03Part) (body []byte, ctype stri
 	mw.SetBoundary(boundary)
 	for i, p := range parts {
 		var wr interface{ Write([]byte) (int, error) }
-		if p.file {
+		if p.lines > 0 {
+			h := textproto.MIMEHeader{}
+			n := 1
+			if p.file {
+				h.Set("Content-Disposition", fmt.Sprintf(`form-data; name="%s"; filename="%s"`, c03QuoteEscape(p.field), c03QuoteEscape(p.name)))
+				h.Set("Content-Type", "application/octet-stream")
+				n = 2
+			} else {
+				h.Set("Content-Disposition", fmt.Sprintf(`form-data; name="%s"`, c03QuoteEscape(p.field)))
+			}
+			for ; n < p.lines; n++ {
+				h.Set(fmt.Sprintf("X-Pad-%05d", n), "p")
+			}
+			wr, _ = mw.CreatePart(h)
+		} else if p.file {
 			wr, _ = mw.CreateFormFile(p.field, p.name)
 		} else {
 			h := textproto.MIMEHeader{}
